@@ -271,6 +271,35 @@ def check_reader_arm(ctx, fn: FuncInfo, clsname: str, kind: str) -> None:
             ctx.bad('V9', key, w, f'the reader returns before storing a user value under the guard `{inner or "(none)"}`: a valid '
                                   f'user-supplied figure (e.g. one equal to the declared default of a parameter that starts at the '
                                   f'-1 "not provided" sentinel) is silently dropped')
+    # V9b: `Provided` is what downstream code asks before it uses a supplied figure.  On every path of the float arm that returns
+    # without raising and on which the input equals the declared default, Provided has been set - in particular no return may come
+    # before the default-equality bookkeeping (a supplied figure equal to default == current value would be treated as not given).
+    if kind == 'float':
+        from gxstat.symflow import PathEnumerator, _literals
+        pe = PathEnumerator(arm.body, {f'{P}.Provided', f'{P}.value'}, fork_all=True, prune=True)
+        eq_default = (f'New_val == {P}.DefaultValue', f'{P}.DefaultValue == New_val')
+        nret = 0
+        offenders = []
+        for pth in pe.paths():
+            if pth.ended not in ('return', 'fallthrough'):
+                continue
+            nret += 1
+            lits = {txt: pol for c in pth.conds for txt, pol in _literals(c[0], c[1])}
+            tested = [lits[t] for t in eq_default if t in lits]
+            sets_provided = f'{P}.Provided' in pth.env and pth.env[f'{P}.Provided'].expr is not None and \
+                norm(pth.env[f'{P}.Provided'].expr) == 'True'
+            stores_value = f'{P}.value' in pth.env
+            if stores_value:
+                continue                      # the normal accept path (V1 checks that Provided/Valid follow the store)
+            if (tested and tested[0] is True and not sets_provided) or (not tested):
+                line = pth.ret.line if pth.ret is not None else arm.lineno
+                offenders.append(line)
+        ctx.floor('V9', nret, 3, 'returning paths of the float reader arm')
+        ctx.check(not offenders, 'V9', f'ReadParameter/{clsname}/provided-set-when-input-equals-default', where,
+                  f'a path of the float arm returns (line(s) {sorted(set(offenders))[:3]}) without storing the value and either before testing '
+                  f'`New_val == DefaultValue` or with that test true and Provided not set: a user who supplies a figure equal to the default '
+                  f'(= current value) is treated as not having supplied it, and code gated on .Provided falls back to its correlation',
+                  fact='every non-storing return has Provided = True when the input equals the default')
     ctx.require(found_tests, f'{clsname} arm: no range test found (anchor vanished)')
     ctx.require(stores, f'{clsname} arm: no store to {P}.value found (anchor vanished)')
     for st, state in stores:
@@ -696,6 +725,8 @@ def run(ctx) -> None:
                    'input equals the current/default value); -1 below a non-negative Min is the documented sentinel')
     ctx.rule('V7', 'the value tested is the user value (no lossy coercion before the test)')
     ctx.rule('V8', 'special-case stores derived from the raw text come after the shared reader')
+    ctx.rule('V10', 'every input parameter is registered in ParameterDict under its own name')
+    ctx.rule('V11', 'the client cache key covers the whole request text on every path (C08 P5): a cached result never stands in for a rejection')
     ctx.rule('V9', 'an accepted user value is stored unless it equals the current value: early returns in the numeric arms are '
                    'guarded by `input == current value` (integer arm: `== DefaultValue` is sound only while every integer '
                    'declaration starts at its default, checked over the registry)')
@@ -706,6 +737,25 @@ def run(ctx) -> None:
     check_swallow(ctx)
     check_domains(ctx)
     check_special_cases(ctx)
+    # V10: a parameter registered under another parameter's name replaces it in ParameterDict and is itself unreachable by its own name:
+    # the replaced parameter is never range-checked (shared with C10 J1, inputs only)
+    from gxstat.runner import Renamed
+    from gxstat.registry import get_registry
+    reg = get_registry(ctx.repo)
+    n10 = 0
+    for d in reg.decls:
+        if not d.is_input or d.dict_name is None or d.key_attr is None:
+            continue
+        n10 += 1
+        ctx.check(d.key_attr == d.attr, 'V10', f'{d.owner}.{d.attr}/registered-under-own-name', d.where,
+                  f'{d.owner}.{d.attr} ({d.name!r}) is registered under `{d.key_expr}`: it replaces that parameter in ParameterDict, so a value the '
+                  f'user gives for the replaced parameter is never read or range-checked (and this one is unreachable by its own name)',
+                  fact='registered under its own Name')
+    ctx.floor('V10', n10, 250, 'registered input declarations')
+    # V11: a result cache in front of the reader must not answer a request from another request's entry (an invalid input would
+    # then return an earlier valid result instead of being rejected) - shared with C08 P5
+    from rules.c08 import check_p5
+    check_p5(Renamed(ctx, {'P5': 'V11'}))
     ctx.undecided('pint raising inside ConvertUnits for unit-suffixed inputs (see C06)',
                   'list-valued parameters (the property is about scalars): the listParameter arm warns and keeps')
     ctx.assume('the entry points reach validation only through the read_parameters methods resolved here')
